@@ -129,7 +129,7 @@ async fn run(input: RunInput, mode: Mode) -> RunOutput {
     let w = World::new(&input, LinkCfg::clean(200, 5_000));
     let faulty = w.flag("faulty", 0.6);
     let n = w.param("nodes", 3, 5) as usize;
-    let n_ops = w.param("ops", 1, 30) as usize;
+    let n_ops = w.param("ops", 1, if w.tier == Tier::Quick { 30 } else { 90 }) as usize;
     let idle_ms = w.param("idle_ms", 2_000, 10_000) as u64;
     // keep-alive absent, below half the idle timeout (keeps idle connections alive) or - an odd
     // but legal configuration - at or above it (never fires in time)
